@@ -236,7 +236,7 @@ def load_csv(
                     first_line_is_header = True
             elif isinstance(contains_header, (list, tuple)):
                 mandatory_column_name_does_not_exist = next((mandatory_column_name for mandatory_column_name in contains_header if mandatory_column_name not in first_line_column_names), None)
-                if mandatory_column_name_does_not_exist:
+                if mandatory_column_name_does_not_exist is not None:
                     if header_is_mandatory:
                         if raise_exception:
                             raise ReferenceError(f"First line is not the header: expected column names {tuple(contains_header)}, received {tuple(first_line_column_names)}. '{mandatory_column_name_does_not_exist}' doesn't exist.")
